@@ -794,12 +794,13 @@ class SimKernel:
             100, 0, 0, 0, utime, stime, p.cutime, p.cstime, 20, p.nice,
             nthreads, 0, p.starttime,
             0 if p.zombie else p.vsize, 0 if p.zombie else p.rss,
-            18446744073709551615, 1, 1, 0, 0, 0, 0, 0, 0, 0, 0, 0, 0, 0,
+            18446744073709551615, 1, 1, 0, 0, 0, 0, 0, 0, 0, 0, 0, 0,
             17, p.cpu, 0, 0, p.blkio, 0, 0, 0, 0, 0, 0, 0, 0, 0,
             (p.exit_status or 0) if p.zombie else 0,
         ]
         if self.stat_short:
             vals = vals[:39]    # kernels lacking delayacct_blkio_ticks etc.
+        assert self.stat_short or len(vals) == 50
         return (b"%d (" % ident) + comm + b") " + \
             " ".join(str(v) for v in vals).encode() + b"\n"
 
